@@ -21,7 +21,7 @@ def mk(o, flags, ts, last, ms, stream, frag=False, has_ts=True, last_has_ts=True
 
 
 def generate(R, tier):
-    n = 20000 if tier == "quick" else 400000
+    n = 20000 if tier == "quick" else 2000000
     # rounding sweep through the API: ms = 2000 so ticks = 2f (+1 for .5)
     for f2 in range(0, 3201):
         yield mk(DEFAULT_O, 0x10, 5000 + f2, 5000, 2000, "round-sweep")
